@@ -122,7 +122,8 @@ fn shard(ctx: &ShardCtx) -> ShardResult {
         return res;
     }
     let mut i = ctx.first_index;
-    while ctx.time_left() {
+    let clock = ctx.clock();
+    while clock.left() {
         let case = case_at(ctx.seed, ctx.shard, i, 12, &mut res);
         journal_current(ctx, &case.src);
         ctx.begin_case(i, &format!("// origin: {:?}\n{}", case.origin, case.src), &res);
